@@ -20,6 +20,7 @@ import (
 	"context"
 	"fmt"
 	"math/rand"
+	"runtime"
 	"sort"
 	"strconv"
 	"strings"
@@ -33,6 +34,8 @@ func init() {
 	registerKind("share", genShare, "share", runShareCase)
 	registerKind("conn", genConn, "conn", runConnCase)
 	registerKind("sharec", genShareConc, "sharec", runShareConcCase)
+	registerKind("connc", genConnConc, "connc", runConnConcCase)
+	registerKind("sharex", nil, "sharex", runShareScenario)
 }
 
 // ---------- instrumented source ----------
@@ -45,7 +48,10 @@ type upSub struct {
 
 // upSource is a hot source that counts its subscriptions. The k-th subscription first plays
 // pre[min(k, len(pre)-1)] synchronously inside Subscribe (a Just-like prefix), then stays hot
-// until its teardown runs. A push goes to every subscription whose teardown has not run.
+// until its teardown runs. A push goes to every subscription that is live. A subscription stops
+// being live when its teardown runs or when the source itself ends it (just before it emits the
+// terminal): from the source's side a subscription it has completed is over, whether or not the
+// subscriber has already run the teardown.
 type upSource struct {
 	mu      sync.Mutex
 	total   int
@@ -53,6 +59,7 @@ type upSource struct {
 	maxLive int
 	subs    []*upSub
 	pre     [][]Tok
+	yield   int // concurrent variants: Gosched this many times inside Subscribe (widens races)
 }
 
 func (p *upSource) Observable() ro.Observable[int] {
@@ -74,18 +81,26 @@ func (p *upSource) Observable() ro.Observable[int] {
 			pre = p.pre[k]
 		}
 		p.mu.Unlock()
+		for i := 0; i < p.yield; i++ {
+			runtime.Gosched()
+		}
 		for _, t := range pre {
+			if t.kind != 'N' {
+				p.end(u)
+			}
 			emit(dest, ctx, t)
 		}
-		return func() {
-			p.mu.Lock()
-			if !u.closed {
-				u.closed = true
-				p.live--
-			}
-			p.mu.Unlock()
-		}
+		return func() { p.end(u) }
 	})
+}
+
+func (p *upSource) end(u *upSub) {
+	p.mu.Lock()
+	if !u.closed {
+		u.closed = true
+		p.live--
+	}
+	p.mu.Unlock()
 }
 
 func (p *upSource) push(t Tok) {
@@ -97,7 +112,10 @@ func (p *upSource) push(t Tok) {
 		closed := u.closed
 		p.mu.Unlock()
 		if closed {
-			continue // a well-behaved source does not emit to a subscription it has torn down
+			continue // a well-behaved source does not emit to a subscription that is over
+		}
+		if t.kind != 'N' {
+			p.end(u)
 		}
 		emit(u.dest, u.ctx, t)
 	}
@@ -483,9 +501,15 @@ func genShare(tier string, seed int64, only string) []*Case {
 	r := rand.New(rand.NewSource(seed))
 	var cases []*Case
 	id := 0
+	// -only fix: the tree under check has repo_fixes/C11-share-local-sourceSubscription.patch applied
+	// (decided by the check from the source text); the model then takes its `fixed` branch
+	fix := "0"
+	if only == "fix" {
+		fix = "1"
+	}
 	add := func(api, conn, flags, pre, ev string) {
 		id++
-		cases = append(cases, newCase(id, "kind", "share", "api", api, "conn", conn, "flags", flags, "pre", pre, "ev", ev))
+		cases = append(cases, newCase(id, "kind", "share", "api", api, "conn", conn, "flags", flags, "pre", pre, "ev", ev, "fix", fix))
 	}
 	for _, c := range shareCorpus {
 		pe := strings.SplitN(c[3], "|", 2)
@@ -609,7 +633,9 @@ func genShareConc(tier string, seed int64, only string) []*Case {
 	for i := 1; i <= n; i++ {
 		conn := []string{"publish", "behavior", "replay1", "replay2"}[r.Intn(4)]
 		fl := shareFlagSets[r.Intn(8)]
-		term := []string{"-", "-", "C", "E"}[r.Intn(4)]
+		// "C" / "E": one terminal after `pushes` values; "C<m>" / "E<m>": a terminal after every m values
+		// (many short generations: creation races with the terminal's reset)
+		term := []string{"-", "-", "C", "E", "C3", "E2", "C1", "C7"}[r.Intn(8)]
 		cases = append(cases, newCase(i, "kind", "sharec", "conn", conn, "flags", fl, "threads", strconv.Itoa(2+r.Intn(5)),
 			"rounds", strconv.Itoa(1+r.Intn(6)), "hold", strconv.Itoa(r.Intn(3)), "pushes", strconv.Itoa(20+r.Intn(200)), "term", term,
 			"rs", strconv.Itoa(r.Intn(1<<30))))
@@ -652,6 +678,8 @@ func runShareConcCase(c *Case) string {
 	var all []*concRec
 	var allMu sync.Mutex
 	var stop int32
+	var nilDerefs int32 // recovered nil dereferences of Share's `sourceSubscription` seen in this case
+	var termInside int32 // subscribers that received their terminal before their own Subscribe call returned
 	var wg sync.WaitGroup
 	var problems []string
 	var pmu sync.Mutex
@@ -674,6 +702,12 @@ func runShareConcCase(c *Case) string {
 				allMu.Lock()
 				all = append(all, r)
 				allMu.Unlock()
+				var inSub int32 = 1
+				noteTerm := func() {
+					if atomic.LoadInt32(&inSub) == 1 {
+						atomic.AddInt32(&termInside, 1)
+					}
+				}
 				sub := shared.SubscribeWithContext(context.Background(), ro.NewObserverWithContext(
 					func(ctx context.Context, v int) {
 						r.mu.Lock()
@@ -685,6 +719,10 @@ func runShareConcCase(c *Case) string {
 						r.note()
 					},
 					func(ctx context.Context, err error) {
+						if strings.Contains(renderShareErr(err), "nilderef") {
+							atomic.AddInt32(&nilDerefs, 1)
+						}
+						noteTerm()
 						r.mu.Lock()
 						if r.terms > 0 {
 							r.after++
@@ -694,6 +732,7 @@ func runShareConcCase(c *Case) string {
 						r.note()
 					},
 					func(ctx context.Context) {
+						noteTerm()
 						r.mu.Lock()
 						if r.terms > 0 {
 							r.after++
@@ -702,6 +741,7 @@ func runShareConcCase(c *Case) string {
 						r.mu.Unlock()
 						r.note()
 					}))
+				atomic.StoreInt32(&inSub, 0)
 				for {
 					r.mu.Lock()
 					enough := len(r.vals) >= hold || r.terms > 0
@@ -719,17 +759,29 @@ func runShareConcCase(c *Case) string {
 	srcDone := make(chan struct{})
 	go func() {
 		defer close(srcDone)
+		period := 0
+		if len(term) > 1 {
+			period, _ = strconv.Atoi(term[1:])
+		}
+		endTok := Tok{kind: 'C'}
+		if term[0] == 'E' {
+			endTok = Tok{kind: 'E', val: 1}
+		}
 		for v := 1; v <= pushes; v++ {
 			src.push(Tok{kind: 'N', val: v})
+			if period > 0 && v%period == 0 {
+				src.push(endTok)
+			}
 		}
-		if term == "C" {
-			src.push(Tok{kind: 'C'})
-		} else if term == "E" {
-			src.push(Tok{kind: 'E', val: 1})
+		if term == "C" || term == "E" {
+			src.push(endTok)
 		}
 		// keep feeding until every subscriber goroutine has finished its rounds
 		for v := pushes + 1; atomic.LoadInt32(&stop) == 0; v++ {
 			src.push(Tok{kind: 'N', val: v})
+			if period > 0 && v%period == 0 {
+				src.push(endTok)
+			}
 		}
 	}()
 	wg.Wait()
@@ -759,16 +811,160 @@ func runShareConcCase(c *Case) string {
 		}
 	}
 	_ = total
-	latchable := (term == "C" && !strings.Contains(flags, "C")) || (term == "E" && !strings.Contains(flags, "E"))
+	latchable := (term[0] == 'C' && !strings.Contains(flags, "C")) || (term[0] == 'E' && !strings.Contains(flags, "E"))
 	if strings.Contains(flags, "Z") && !latchable && live != 0 {
 		problem("live-after-all-left=" + strconv.Itoa(live))
 	}
 	for _, u := range rec.unhandled {
 		problem("unhandled:" + u)
 	}
+	rec.mu.Lock()
+	for _, d := range rec.drops {
+		if strings.Contains(d, "nil_pointer_dereference") {
+			nilDerefs++
+		}
+	}
+	rec.mu.Unlock()
 	sort.Strings(problems)
 	if len(problems) > 6 {
 		problems = problems[:6]
 	}
-	return fmt.Sprintf("res %s inv=%s", c.id, joinOrDash(problems))
+	// nd = nil dereferences observed (the asynchronous form of the known finding): reported
+	// separately so that the check can attribute an upstream subscription that is never released
+	// ti = subscribers that got their terminal while still inside Subscribe: their reference is given back
+	// only when Subscribe returns, possibly after a newer generation has been created (second known class)
+	return fmt.Sprintf("res %s inv=%s nd=%d ti=%d", c.id, joinOrDash(problems), nilDerefs, termInside)
+}
+
+// ---------- concurrent Connect (validation / search only) ----------
+
+// `threads` goroutines call Connect at the same time on one connectable observable (the probe
+// yields inside Subscribe), `rounds` times with a disconnect in between. Checked on the
+// implementation: every round subscribes the source exactly once, never two live upstream
+// subscriptions, every Connect of a round returns the same subscription.
+func genConnConc(tier string, seed int64, only string) []*Case {
+	r := rand.New(rand.NewSource(seed))
+	n := 40
+	if tier == "thorough" {
+		n = 400
+	}
+	var cases []*Case
+	for i := 1; i <= n; i++ {
+		cases = append(cases, newCase(i, "kind", "connc", "conn", []string{"publish", "behavior", "replay1"}[r.Intn(3)],
+			"reset", strconv.Itoa(r.Intn(2)), "threads", strconv.Itoa(2+r.Intn(7)), "rounds", strconv.Itoa(1+r.Intn(5)), "yield", strconv.Itoa(r.Intn(4))))
+	}
+	return cases
+}
+
+func runConnConcCase(c *Case) string {
+	cf := connector(c.get("conn", "publish"))
+	if cf == nil {
+		return "res " + c.id + " bad-case"
+	}
+	threads, _ := strconv.Atoi(c.get("threads", "2"))
+	rounds, _ := strconv.Atoi(c.get("rounds", "1"))
+	yield, _ := strconv.Atoi(c.get("yield", "1"))
+	src := &upSource{yield: yield}
+	co := ro.ConnectableWithConfig(src.Observable(), ro.ConnectableConfig[int]{Connector: cf, ResetOnDisconnect: c.get("reset", "1") == "1"})
+	rec := &Recorder{}
+	setRecorder(rec)
+	defer setRecorder(nil)
+	var problems []string
+	for k := 0; k < rounds; k++ {
+		_, before := src.counters()
+		start := make(chan struct{})
+		rets := make([]ro.Subscription, threads)
+		var wg sync.WaitGroup
+		for t := 0; t < threads; t++ {
+			wg.Add(1)
+			go func(t int) {
+				defer wg.Done()
+				<-start
+				rets[t] = co.Connect()
+			}(t)
+		}
+		close(start)
+		wg.Wait()
+		live, total := src.counters()
+		if total != before+1 {
+			problems = append(problems, fmt.Sprintf("round%d:subscribed=%d", k, total-before))
+		}
+		if live > 1 {
+			problems = append(problems, fmt.Sprintf("round%d:live=%d", k, live))
+		}
+		for t := 1; t < threads; t++ {
+			if rets[t] != rets[0] {
+				problems = append(problems, fmt.Sprintf("round%d:different-subscriptions", k))
+				break
+			}
+		}
+		for _, s := range rets {
+			if s != nil {
+				s.Unsubscribe()
+			}
+		}
+		if l, _ := src.counters(); l != 0 {
+			problems = append(problems, fmt.Sprintf("round%d:live-after-disconnect=%d", k, l))
+		}
+	}
+	src.mu.Lock()
+	if src.maxLive > 1 {
+		problems = append(problems, "maxlive="+strconv.Itoa(src.maxLive))
+	}
+	src.mu.Unlock()
+	if len(problems) > 6 {
+		problems = problems[:6]
+	}
+	return fmt.Sprintf("res %s inv=%s nd=0 ti=0", c.id, joinOrDash(problems))
+}
+
+// ---------- deterministic scenario for the late-release finding ----------
+
+// kind=sharex scenario=late-release: no goroutines. Subscriber A creates generation 1; inside the
+// source's Subscribe (region R3 of A) the source errors synchronously (the configuration resets:
+// generation 1 is gone, A's reference still counted) and, still inside that call, subscriber B
+// subscribes and unsubscribes (creates generation 2 over a now hot source, leaves: refCount 2 -> 1).
+// A's Subscribe then returns, A's teardown gives the last reference back and resets the generation it
+// captured (1, already reset) — generation 2's upstream subscription stays live with nobody listening.
+func runShareScenario(c *Case) string {
+	if c.get("scenario", "") != "late-release" {
+		return "res " + c.id + " unsupported"
+	}
+	flags := c.get("flags", "ECZ")
+	var shared ro.Observable[int]
+	src := &upSource{}
+	var up []string
+	note := func() {
+		l, t := src.counters()
+		up = append(up, fmt.Sprintf("%d/%d", l, t))
+	}
+	recA, recB := &subRec{}, &subRec{}
+	first := true
+	inner := src.Observable()
+	source := ro.NewUnsafeObservableWithContext(func(ctx context.Context, dest ro.Observer[int]) ro.Teardown {
+		sub := inner.SubscribeWithContext(ctx, dest)
+		if first {
+			first = false
+			src.push(Tok{kind: 'E', val: 1}) // synchronous error to generation 1
+			note()
+			b := shared.SubscribeWithContext(context.Background(), bareObserver(recB))
+			note()
+			b.Unsubscribe()
+			note()
+		}
+		return sub.Unsubscribe
+	})
+	shared = buildShared("config", c.get("conn", "publish"), flags, source)
+	rec := &Recorder{}
+	setRecorder(rec)
+	defer setRecorder(nil)
+	var escaped []string
+	guarded(&escaped, func() {
+		a := shared.SubscribeWithContext(context.Background(), bareObserver(recA))
+		note()
+		a.Unsubscribe()
+		note()
+	})
+	return fmt.Sprintf("res %s traces=%s|%s up=%s drops=%s unhandled=%s escaped=%s", c.id, recA.String(), recB.String(), joinOrDash(up),
+		renderHookList(rec.drops), renderHookList(rec.unhandled), joinOrDash(escaped))
 }
